@@ -24,6 +24,9 @@ CHECKS = {
  "C06": ("model_checking", "explicit-state BFS over the real token API in virtual time (E1)",
          "All histories (quick depth 4, thorough depth 6) of create / use / authorize / remove / age / tamper over two tokens and two keys run on the real code under a frozen virtual clock with exact boundary ages (lifetime-1ns, lifetime, lifetime+1ns), for storage wrapper off/on x three maximum lifetimes; a successful use must be of an issued, unconsumed token within the lifetime counted from the sealed creation instant, by a key without a record; failed uses must create no record; stored bytes must not contain the HMAC key or the token.",
          "The tie age == lifetime is left unconstrained. One known finding (downgrade edit) is listed in known_findings.json.", "6/C06", "E1"),
+ "C07": ("exploration", "bounded-exhaustive enumeration of rogue-server constructions and honest configurations (E4) with the real Dial; explicit-state search of authorize/dial/advance/rotate histories in virtual time (E1)",
+         "The real protocol.Dial of a registered node runs against nine hand-built TLS servers that decode the node's ALPN request (so they know this dial's nonce) and present every listed kind of wrong certificate, plus two that hold a trusted root and must be accepted; 16 honest configurations (tcp and unix) must connect; in virtual time every history of authorize / dial / advance / rotate up to the depth is explored: an unregistered node must get ErrNotAuthorized and store no certificates, must connect with the same stored key after authorization, and must connect whenever it holds a valid chain under a root the server still holds.",
+         "Two rogue constructions use the server's own root key (stronger than a real adversary). Ties in validity are not judged.", "6/C07", "E4+E1"),
  "C08": ("model_checking", "exhaustive order-type enumeration (E4) + explicit-state BFS of rotation histories in virtual time (E1) on the real rotation code",
          "Every weak ordering of the four stored validity instants and now (well-formed windows, at 1h and at 1ns spacing, so exact ties and +-1ns are cases) x lifetime/skew/reinitialize/clock configurations is run through the real RotateRootCertificates; the action taken must be one the property's decision table allows, promoted roots must be byte-identical, minted windows must equal now+skew..now+lifetime+skew shifted by exactly half the remaining life (frozen clock => equality), returned == reloaded, both roots self-signed CAs. Rotation/advance histories from empty storage are searched breadth-first with the same oracle.",
          "Ties may be decided either way; ill-formed windows and sub-2ns lifetime+skew are excluded as unreachable/meaningless.", "6/C08", "E4+E1"),
